@@ -424,7 +424,7 @@ impl Property for C03 {
     fn runs(&self, tier: Tier) -> u64 {
         match tier {
             Tier::Quick => 30000,
-            Tier::Thorough => 3000000,
+            Tier::Thorough => 6000000,
         }
     }
 
